@@ -59,6 +59,7 @@ private:
 	void on_server_forward(boost::system::error_code const& ec, size_t bytes_transferred);
 
 	void error(int code, char const* message);
+	void on_error_sent(boost::system::error_code const& ec);
 	void close_connection();
 
 	asio::ip::tcp::resolver m_resolver;
